@@ -421,7 +421,7 @@ func c03Run(r *mon.Run) {
 		}
 		r.Gate(name + "/approx")
 	}
-	r.Gate("err-sample-size", "err-samples-equal/exact-path", "err-samples-equal/approx-path", "P-near-1", "sparse-ties/exact", "sparse-ties/approx")
+	r.Gate("err-sample-size", "err-samples-equal/exact-path", "err-samples-equal/approx-path", "P-near-1", "sparse-ties/exact", "sparse-ties/approx", "sparse-ties/exact/ranks>=50")
 
 	npairs := r.Pick(500, 5000)
 	for ci, g := range cfgs {
@@ -467,6 +467,38 @@ func c03Run(r *mon.Run) {
 			// keep the exact reference affordable: C(N,n1) must fit 126 bits
 			if n1+n2 > 120 && exactApplies(n1, n2, density != 0) {
 				n1, n2 = min(n1, 60), min(n2, 60)
+			}
+			if density == 5 && g.t > defT && i%12 == 5 {
+				// many ranks AND sizes beyond the default limit: 50 or more
+				// distinct pooled values on the exact path. The library's
+				// tied distribution is affordable there only in a tail, so
+				// the first sample takes the top values but for a few
+				// exchanges; then one to three coincidences are planted.
+				n1, n2 = rng.Range(defT+1, g.t), rng.Range(defT+1, g.t)
+				N := n1 + n2
+				vals := incValues(rng, N)
+				idx := make([]int, N)
+				for k := range idx {
+					idx[k] = N - 1 - k
+				}
+				for k := rng.Intn(3); k > 0; k-- {
+					a, b := rng.Intn(N), rng.Intn(N)
+					idx[a], idx[b] = idx[b], idx[a]
+				}
+				all := make([]float64, N)
+				for k := range all {
+					all[k] = vals[idx[k]]
+				}
+				for k := 1 + rng.Intn(3); k > 0; k-- {
+					all[rng.Intn(N)] = all[rng.Intn(N)]
+				}
+				x1 := append([]float64(nil), all[:n1]...)
+				x2 := append([]float64(nil), all[n1:]...)
+				if T, t := pooledTies(x1, x2); t && len(T) >= 50 {
+					w.Hit("sparse-ties/exact/ranks>=50")
+				}
+				c03Judge(w, c03Case{X1: x1, X2: x2, LimU: g.u, LimT: g.t})
+				return
 			}
 			if density == 5 && g.t > defT && n1 <= g.t && n2 <= g.t && n1+n2 > 2*defT {
 				// the library's tied exact distribution with this many
